@@ -1,0 +1,6 @@
+// Package verifhook carries instrumentation events from internal packages to an
+// external verification harness.
+//
+// It is empty unless the module is built with the `verif` build tag; the library
+// itself never installs a sink, so the hooks are inert in every normal build.
+package verifhook
